@@ -20,7 +20,8 @@ Vars  == {<<Q(0, d1, 0, f1, 0, 0, b, 1, 0), Q(0, d2, 0, f2, rr[1], rr[2], b, v2,
 Reps  == {<<Q(0, 1000, 0, 32767, rr[1], rr[2], b, -1, 0), Q(4, d, 0, 32767, 2, 2, b2, v, 0)>> :
           rr \in {<<1, 1>>, <<0, 3>>, <<2, 1>>}, b \in {0, 150}, d \in {600, 0}, b2 \in {0, 1000}, v \in {-1, 0}}
 Alias == {<<Q(0, 1000, 0, f, 0, 0, b, 1, 0), Q(1, 600, 64, 8192, 0, 0, b, -1, a1), Q(2, 600, 0, 0, 0, 0, b, -1, 0),
-            Q(3, 600, 64, 0, 0, 0, 0, -1, 1), Q(5, 600, 96, 0, 0, 0, 0, -1, 2)>> : f \in {0, 8192}, b \in {0, 150}, a1 \in {2, 3, 1, 9, 4}}
+            Q(3, 600, 64, 0, 0, 0, 0, -1, 2), Q(5, 600, 96, 0, 0, 0, 0, -1, 2), Q(6, 600, 64, 0, 0, 0, 0, -1, 1)>> :
+          f \in {0, 8192}, b \in {0, 150}, a1 \in {2, 3, 1, 9, 4, 5}}     \* 1 hop, 2 hops, self cycle, out of range, 0x20 set, 2-cycle
 NoStand == {<<Q(4, 600, 0, 32767, 0, 0, 0, -1, 0), Q(5, 1000, 0, 32767, 1, 1, 150, 0, 0)>>}
 Cycles == {<<Q(0, 1000, 0, f, 0, 0, b, v, 0), Q(0, 600, 0, f, 0, 0, b, 0, 0)>> : f \in Freqs, b \in {0, 150}, v \in {0, 1}}
 AllTabs == Loops \cup Vars \cup Reps \cup Alias \cup NoStand \cup Cycles
@@ -45,7 +46,7 @@ GNext == GUpdate \/ GUpdate \/ GUpdate \/ GSplit \/ GSetId \/ GSetIdx \/ GDone
 \* ---- enumeration ----------------------------------------------------------------------------------------------
 EnumMode == "GEN_MODE" \in DOMAIN IOEnv /\ IOEnv.GEN_MODE = "enum"
 U(d) == Op("update", d, 0)
-Boundary == <<U(0), U(999), U(1), U(1000), U(0), U(2500), Op("split", 400, 999), U(Huge), Op("setid", 4, 0), U(600), U(150),
+Boundary == <<U(0), U(849), U(2), U(148), U(1), U(1000), U(0), U(2500), Op("split", 400, 999), U(Huge), Op("setid", 4, 0), U(600), U(150),
               Op("setid", 9, 0), Op("setidx", 1, 0), U(450), U(150), U(1), Op("setidx", 6, 0), Op("split", 1000, 1000), U(0)>>
 EnumCases == SetToSeq({[label |-> "enum", mode |-> "new", tab |-> t, gd |-> <<500, 0, 1>>, ops |-> Boundary] : t \in AllTabs})
              \o <<[label |-> "enum", mode |-> "empty", tab |-> <<>>, gd |-> <<>>, ops |-> Boundary]>>
